@@ -231,6 +231,17 @@ func Plans(thorough bool) ([]Plan, map[string]any) {
 			out = append(out, Plan{"T", c, []Step{{Edits: []Edit{EdNone}}, {Edits: []Edit{EdNone}, Tamper: k}}})
 		}
 	}
+	// J: an undecodable unauthenticated record during a FULL handshake (the client's session is deleted
+	// first), then a clean connection: what a fatal alert leaves in the stores
+	for _, c := range cfgs {
+		if c.MTU != 0 {
+			continue
+		}
+		for _, k := range JunkKinds {
+			out = append(out, Plan{"J", c, []Step{{Edits: []Edit{EdDelC}, Tamper: k}, {Edits: []Edit{EdNone}}}})
+			out = append(out, Plan{"J", c, []Step{{Edits: []Edit{EdDelC, EdDelS}, Tamper: k}, {Edits: []Edit{EdNone}}, {Edits: []Edit{EdNone}}}})
+		}
+	}
 	params := map[string]any{"configs": len(cfgs), "edits": len(edits), "edit_sets_between_connections": len(editSets),
 		"max_connections": 3, "N_per_direction": 4, "max_faults": kf, "masks": len(masks), "fault_kinds": fmt.Sprint(checks.AllFaultActions),
 		"tamper_kinds": TamperKinds, "histories": len(out)}
